@@ -206,6 +206,9 @@ def _unit(args):
                                "trusted": sorted(ex.used_trusted), "inlined": sorted(ex.inlined), "assumed": sorted(ex.used_contracts)}
             # a function with many hard obligations is split over several workers: each regenerates the (deterministic)
             # obligation list and solves its share
+            if wname != "main" and getattr(prop, "tag_worlds", False):
+                for ob in obs:   # the same function verified under two worlds (two variants of a contract): keep the obligation names apart
+                    ob.id = f"{wname}::{ob.id}"
             for ob in obs[chunk::nchunks]:
                 r = smt.solve_formula(w, ob.hyps, ob.goal, timeout)
                 ob.verdict, ob.solver, ob.seconds, ob.model, ob.reason = r
